@@ -5,7 +5,7 @@ from ..core import core_oracle
 
 PROP = 'C06'
 LEVEL = 'exploration'
-BUDGET = {'quick': 3200, 'thorough': 64000}
+BUDGET = {'quick': 9600, 'thorough': 128000}
 RULE = ('cases = well-formed chart forced to contain history states (shallow and deep, nested '
         'compound/orthogonal content below the parent) with transitions moving inside the parent, '
         'leaving it, and re-entering through the history state + history of 10-30 ops. The model '
